@@ -58,7 +58,12 @@ class Ctx:
                 if line not in self.known:
                     self.known.append(line)
                 return "known"
-        self.violation(what, replay_obj)
+        self.key_counts = getattr(self, "key_counts", {})
+        self.key_counts[key] = self.key_counts.get(key, 0) + 1
+        if self.key_counts[key] <= 3:      # a few replays per kind of failure are enough
+            self.violation(what, replay_obj)
+        else:
+            self.suppressed = getattr(self, "suppressed", 0) + 1
         return "violation"
 
     def finish(self, level="proof"):
